@@ -335,3 +335,21 @@ func NativeClockUsed() int {
 	defer mu.Unlock()
 	return clockN
 }
+
+// UsePathFacts (C20): from here on the executor's IndexByte model uses byte comparisons the
+// path has already decided (see engine/intrinsics_c20.go). Natively a no-op.
+func UsePathFacts() {}
+
+// Rest lets every other goroutine run until nothing can move any more. Under the symbolic
+// executor the others are run one at a time to their next blocking point in creation order
+// (ONE canonical schedule, no case split - unlike Join, which explores the orders); natively
+// it simply waits a moment.
+func Rest() { time.Sleep(150 * time.Millisecond) }
+
+// ClockSteps (C14): from here on every reading of the model clock is the previous reading plus
+// a fresh non-negative step of `bits` bits (the first one: the ClockRange origin plus a step),
+// i.e. the clock is monotone by construction instead of by side constraints, and a history's
+// readings span at most (number of readings) x 2^bits ns. Answers that depend only on
+// differences of instants are unaffected; the solver is spared 64-bit order reasoning
+// (see engine/intrinsics_c14.go). Natively a no-op (readings come from the model file).
+func ClockSteps(bits int) {}
